@@ -78,8 +78,10 @@ package core
 // counted twice; when the stream becomes unavailable the table is emptied.
 
 //@ func (pa *path) addReaderPost
-//@   property C18
+//@   property C18, C19
 //@   safety -all
+//@   assert-call send: ch == req.Res
+//@   ensures [answered-exactly-once] called(send) == 1
 //@   requires [limit-holds] pa.conf != nil && (pa.conf.MaxReaders == 0 || len(pa.readers) <= pa.conf.MaxReaders)
 //@   ensures [limit-preserved] pa.conf == old(pa.conf) && pa.conf.MaxReaders == old(pa.conf.MaxReaders) && (pa.conf.MaxReaders == 0 || len(pa.readers) <= pa.conf.MaxReaders)
 //@   ensures [not-counted-twice] old(has(pa.readers, req.Author)) ==> len(pa.readers) == old(len(pa.readers))
@@ -87,31 +89,54 @@ package core
 //@   ensures [same-table] pa.readers == old(pa.readers)
 
 //@ func (pa *path) consumeOnHoldRequests
-//@   property C18
+//@   property C18, C19
 //@   safety -all
+//@   assert-call send: called(send) <= len(old(pa.describeRequestsOnHold)) && ch == old(pa.describeRequestsOnHold)[called(send)-1].Res
+//@   assert-call addReaderPost: called(addReaderPost) <= len(old(pa.readerAddRequestsOnHold)) && req.Res == old(pa.readerAddRequestsOnHold)[called(addReaderPost)-1].Res && called(send) == len(old(pa.describeRequestsOnHold))
+//@   loop 1 invariant 0 <= _i && _i <= len(pa.describeRequestsOnHold) && called(send) == _i && called(addReaderPost) == 0 && pa.describeRequestsOnHold == old(pa.describeRequestsOnHold) && pa.readerAddRequestsOnHold == old(pa.readerAddRequestsOnHold)
+//@   ensures [held-describes-answered-once-held-readers-attached-once] called(send) == len(old(pa.describeRequestsOnHold)) && called(addReaderPost) == len(old(pa.readerAddRequestsOnHold))
+//@   ensures [hold-lists-emptied] isnil(pa.describeRequestsOnHold) && isnil(pa.readerAddRequestsOnHold)
 //@   domain pa.conf != nil && (pa.conf.MaxReaders == 0 || len(pa.readers) <= pa.conf.MaxReaders)
 //@   loop 2 invariant pa.conf == old(pa.conf) && pa.conf.MaxReaders == old(pa.conf.MaxReaders) && pa.readers == old(pa.readers) && (pa.conf.MaxReaders == 0 || len(pa.readers) <= pa.conf.MaxReaders)
+//@   loop 2 invariant 0 <= _i && _i <= len(pa.readerAddRequestsOnHold) && called(addReaderPost) == _i && called(send) == len(old(pa.describeRequestsOnHold)) && pa.readerAddRequestsOnHold == old(pa.readerAddRequestsOnHold)
 //@   ensures [limit-preserved] pa.conf == old(pa.conf) && (pa.conf.MaxReaders == 0 || len(pa.readers) <= pa.conf.MaxReaders)
 
 //@ func (pa *path) doAddReader
-//@   property C18
+//@   property C18, C19
 //@   safety -all
+//@   assert-call send: ch == req.Res && called(send) == 1 && called(addReaderPost) == 0
+//@   assert-call addReaderPost: req.Res == caller_req.Res && called(addReaderPost) == 1 && called(send) == 0
+//@   assert-call onDemandStaticSourceStart: pa.stream == nil && pa.onDemandStaticSourceState == 0
+//@   assert-call onDemandPublisherStart: pa.stream == nil && pa.onDemandPublisherState == 0
+//@   ensures [answered-at-most-once-here] called(send) + called(addReaderPost) <= 1
+//@   ensures [answered-xor-held] called(send) + called(addReaderPost) + (len(pa.readerAddRequestsOnHold) - len(old(pa.readerAddRequestsOnHold))) == 1
+//@   ensures [otherwise-held] called(send) + called(addReaderPost) == 0 ==> len(pa.readerAddRequestsOnHold) >= 1 && pa.readerAddRequestsOnHold[len(pa.readerAddRequestsOnHold)-1].Res == req.Res
+//@   ensures [earlier-held-requests-kept] len(pa.readerAddRequestsOnHold) >= len(old(pa.readerAddRequestsOnHold)) && len(pa.readerAddRequestsOnHold) <= len(old(pa.readerAddRequestsOnHold)) + 1 && forall(k, 0, len(old(pa.readerAddRequestsOnHold)), pa.readerAddRequestsOnHold[k].Res == old(pa.readerAddRequestsOnHold)[k].Res) && pa.describeRequestsOnHold == old(pa.describeRequestsOnHold)
+//@   ensures [held-implies-started] called(send) + called(addReaderPost) == 0 ==> pa.onDemandStaticSourceState != 0 || pa.onDemandPublisherState != 0
 //@   domain pa.conf != nil && (pa.conf.MaxReaders == 0 || len(pa.readers) <= pa.conf.MaxReaders)
 //@   ensures [limit-preserved] pa.conf.MaxReaders == 0 || len(pa.readers) <= pa.conf.MaxReaders
 
 //@ func (pa *path) doRemoveReader
-//@   property C18
+//@   property C18, C19
 //@   safety -all
+//@   assert-call onDemandStaticSourceScheduleClose: len(pa.readers) == 0 && pa.onDemandStaticSourceState == 2
+//@   assert-call onDemandPublisherScheduleClose: len(pa.readers) == 0 && pa.onDemandPublisherState == 2
+//@   ensures [close-scheduled-when-last-reader-leaves] len(pa.readers) == 0 && old(pa.conf.Source != "publisher" && pa.conf.Source != "redirect" && pa.conf.SourceOnDemand) && old(pa.onDemandStaticSourceState) == 2 ==> pa.onDemandStaticSourceState == 3
+//@   ensures [close-scheduled-when-last-reader-leaves-publisher] len(pa.readers) == 0 && !old(pa.conf.Source != "publisher" && pa.conf.Source != "redirect" && pa.conf.SourceOnDemand) && old(pa.conf.RunOnDemand != "") && old(pa.onDemandPublisherState) == 2 ==> pa.onDemandPublisherState == 3
 //@   domain pa.conf != nil && (pa.conf.MaxReaders == 0 || len(pa.readers) <= pa.conf.MaxReaders)
 //@   ensures [limit-preserved] pa.conf.MaxReaders == 0 || len(pa.readers) <= pa.conf.MaxReaders
 //@   ensures [reader-detached] !has(pa.readers, req.Author)
 
 //@ func (pa *path) setNotAvailable
-//@   property C18
+//@   property C18, C20
 //@   safety -all
 //@   loop 1 invariant forall(r, defs.Reader, visited(pa.readers, r) ==> !has(pa.readers, r))
-//@   assert-call onUnavailableHook: forall(r, defs.Reader, !has(pa.readers, r))
+//@   loop 1 invariant called(setOffline) == 1 && called(onUnavailableHook) == 0
+//@   assert-call setOffline: called(setOffline) == 1 && called(onUnavailableHook) == 0
+//@   assert-call onUnavailableHook: forall(r, defs.Reader, !has(pa.readers, r)) && called(setOffline) == 1 && called(onUnavailableHook) == 1
 //@   ensures [unavailable-hook-fires-after-all-readers-are-detached] called(onUnavailableHook) == 1
+//@   ensures [online-pair-closed-before-available-pair] called(setOffline) == 1
+//@   ensures [stream-released] pa.stream == nil
 
 // C16: one publisher per path. A second publisher is rejected while one is attached unless overridePublisher is
 // set; in that case the previous publisher is closed and completely removed (which, on always-available paths,
@@ -119,8 +144,10 @@ package core
 // publisher's sub stream is attached.
 
 //@ func (pa *path) doAddPublisher
-//@   property C16
+//@   property C16, C20
 //@   safety -all
+//@   assert-call setAvailable: called(setAvailable) == 1 && (old(pa.source) != nil ==> called(executeRemovePublisher) == 1)
+//@   assert-call setOnline: called(setOnline) == 1 && (old(pa.source) != nil ==> called(executeRemovePublisher) == 1)
 //@   assert-call Publisher.Close: old(pa.source) != nil && old(pa.conf.OverridePublisher) && old(pa.conf.Source) == "publisher" && called(executeRemovePublisher) == 0
 //@   assert-call executeRemovePublisher: called(Publisher.Close) == 1
 //@   assert-call SubStream.Initialize: old(pa.conf.Source) == "publisher" && (old(pa.source) != nil ==> old(pa.conf.OverridePublisher) && called(Publisher.Close) == 1 && called(executeRemovePublisher) == 1)
@@ -135,9 +162,11 @@ package core
 //@   ensures [attached-publisher-is-removed] old(pa.source) == req.Author ==> called(executeRemovePublisher) == 1
 
 //@ func (pa *path) executeRemovePublisher
-//@   property C16
+//@   property C16, C20
 //@   safety -all
-//@   assert-call setNotAvailable: !old(pa.conf.AlwaysAvailable)
+//@   assert-call setNotAvailable: !old(pa.conf.AlwaysAvailable) && called(setNotAvailable) == 1
+//@   assert-call setOffline: old(pa.conf.AlwaysAvailable) && called(setOffline) == 1
+//@   ensures [publisher-pairs-closed] called(setNotAvailable) + called(setOffline) == 1 && pa.source == nil
 //@   assert-call StartOfflineSubStream: old(pa.conf.AlwaysAvailable)
 //@   ensures [stream-taken-away-from-the-publisher] called(setNotAvailable) + called(StartOfflineSubStream) == 1
 
@@ -217,3 +246,132 @@ package core
 //@   assert-call ToAuthRequest: true
 //@   assert-call Authenticate: req == resultof(ToAuthRequest) && called(ToAuthRequest) == 1 && resultof(FindPathConf, 2) == nil
 //@   ensures [always-authenticates-a-resolved-name] called(FindPathConf) == 1 && (resultof(FindPathConf, 2) == nil ==> called(Authenticate) == 1)
+
+// C19 (sub-claims): a describe or read request is either answered by the handler that receives it - exactly once,
+// on its own reply channel - or put on the hold list; when an on-demand source times out, and when the stream becomes
+// ready, every held request is answered exactly once, in order, on its own channel, and the hold lists are emptied.
+
+//@ func (pa *path) doDescribe
+//@   property C19
+//@   safety -all
+//@   assert-call send: ch == req.Res && called(send) == 1
+//@   ensures [answered-at-most-once-here] called(send) <= 1
+//@   ensures [answered-xor-held] called(send) + (len(pa.describeRequestsOnHold) - len(old(pa.describeRequestsOnHold))) == 1
+//@   ensures [otherwise-held] called(send) == 0 ==> len(pa.describeRequestsOnHold) >= 1 && pa.describeRequestsOnHold[len(pa.describeRequestsOnHold)-1].Res == req.Res
+//@   ensures [earlier-held-requests-kept] len(pa.describeRequestsOnHold) >= len(old(pa.describeRequestsOnHold)) && len(pa.describeRequestsOnHold) <= len(old(pa.describeRequestsOnHold)) + 1 && forall(k, 0, len(old(pa.describeRequestsOnHold)), pa.describeRequestsOnHold[k].Res == old(pa.describeRequestsOnHold)[k].Res) && pa.readerAddRequestsOnHold == old(pa.readerAddRequestsOnHold)
+//@   assert-call onDemandStaticSourceStart: pa.stream == nil && pa.onDemandStaticSourceState == 0
+//@   assert-call onDemandPublisherStart: pa.stream == nil && pa.onDemandPublisherState == 0
+//@   ensures [held-implies-started] called(send) == 0 ==> pa.onDemandStaticSourceState != 0 || pa.onDemandPublisherState != 0
+
+//@ func (pa *path) onDemandStaticSourceStart
+//@   property C19
+//@   safety -all
+//@   ensures [state-waiting-ready] pa.onDemandStaticSourceState == 1
+//@   ensures pa.describeRequestsOnHold == old(pa.describeRequestsOnHold) && pa.readerAddRequestsOnHold == old(pa.readerAddRequestsOnHold) && pa.onDemandPublisherState == old(pa.onDemandPublisherState)
+//@   ensures pa.readers == old(pa.readers) && len(pa.readers) == old(len(pa.readers)) && pa.conf == old(pa.conf) && pa.conf.MaxReaders == old(pa.conf.MaxReaders)
+
+//@ func (pa *path) onDemandPublisherStart
+//@   property C19, C20
+//@   safety -all
+//@   assert-call OnDemand: called(OnDemand) == 1
+//@   ensures [demand-pair-opened-once] called(OnDemand) == 1 && pa.onUnDemandHook == resultof(OnDemand)
+//@   ensures [state-waiting-ready] pa.onDemandPublisherState == 1
+//@   ensures pa.describeRequestsOnHold == old(pa.describeRequestsOnHold) && pa.readerAddRequestsOnHold == old(pa.readerAddRequestsOnHold) && pa.onDemandStaticSourceState == old(pa.onDemandStaticSourceState)
+//@   ensures pa.readers == old(pa.readers) && len(pa.readers) == old(len(pa.readers)) && pa.conf == old(pa.conf) && pa.conf.MaxReaders == old(pa.conf.MaxReaders)
+
+//@ func (pa *path) onDemandStaticSourceScheduleClose
+//@   property C19
+//@   safety -all
+//@   ensures [state-closing] pa.onDemandStaticSourceState == 3
+//@   ensures pa.readers == old(pa.readers) && len(pa.readers) == old(len(pa.readers)) && pa.conf == old(pa.conf) && pa.conf.MaxReaders == old(pa.conf.MaxReaders) && pa.onDemandPublisherState == old(pa.onDemandPublisherState)
+
+//@ func (pa *path) onDemandPublisherScheduleClose
+//@   property C19
+//@   safety -all
+//@   ensures [state-closing] pa.onDemandPublisherState == 3
+//@   ensures pa.readers == old(pa.readers) && len(pa.readers) == old(len(pa.readers)) && pa.conf == old(pa.conf) && pa.conf.MaxReaders == old(pa.conf.MaxReaders) && pa.onDemandStaticSourceState == old(pa.onDemandStaticSourceState)
+
+//@ func (pa *path) onDemandStaticSourceStop
+//@   property C19
+//@   safety -all
+//@   ensures [state-initial-so-later-demand-restarts] pa.onDemandStaticSourceState == 0
+
+//@ func (pa *path) onDemandPublisherStop
+//@   property C19, C20
+//@   safety -all
+//@   assert-call onUnDemandHook: called(onUnDemandHook) == 1
+//@   ensures [demand-pair-closed-once-and-forgotten] called(onUnDemandHook) == 1 && isnil(pa.onUnDemandHook)
+//@   ensures [state-initial-so-later-demand-restarts] pa.onDemandPublisherState == 0
+
+//@ func (pa *path) doOnDemandStaticSourceCloseTimer
+//@   property C19
+//@   safety -all
+//@   assert-call onDemandStaticSourceStop: true
+//@   ensures [stopped-after-close-delay] called(onDemandStaticSourceStop) == 1 && pa.onDemandStaticSourceState == 0
+
+//@ func (pa *path) doOnDemandPublisherCloseTimer
+//@   property C19
+//@   safety -all
+//@   assert-call onDemandPublisherStop: true
+//@   ensures [stopped-after-close-delay] called(onDemandPublisherStop) == 1 && pa.onDemandPublisherState == 0
+
+//@ func (pa *path) run
+//@   property C19, C20
+//@   assert-call onUnDemandHook: !isnil(pa.onUnDemandHook) && called(onUnDemandHook) == 1 && called(setNotAvailable) == 0
+//@   assert-call setNotAvailable: pa.stream != nil && called(setNotAvailable) == 1
+//@   assert-call path.Log: pa.stream == nil && (called(onUnDemandHook) == 1 || called(setNotAvailable) == 1 || isnil(pa.onUnDemandHook))
+//@   safety -all
+//@   assert-call send: (called(send) <= len(pa.describeRequestsOnHold) ==> ch == pa.describeRequestsOnHold[called(send)-1].Res) && (called(send) > len(pa.describeRequestsOnHold) ==> called(send) - len(pa.describeRequestsOnHold) <= len(pa.readerAddRequestsOnHold) && ch == pa.readerAddRequestsOnHold[called(send) - len(pa.describeRequestsOnHold) - 1].Res)
+//@   loop 1 invariant called(onUnDemandHook) == 0 && called(setNotAvailable) == 0 && called(path.Log) == 0 && 0 <= _i && _i <= len(pa.describeRequestsOnHold) && called(send) == _i
+//@   loop 2 invariant called(onUnDemandHook) == 0 && called(setNotAvailable) == 0 && called(path.Log) == 0 && 0 <= _i && _i <= len(pa.readerAddRequestsOnHold) && called(send) == len(pa.describeRequestsOnHold) + _i
+
+//@ func (pa *path) doOnDemandStaticSourceReadyTimer
+//@   property C19
+//@   safety -all
+//@   assert-call send: (called(send) <= len(old(pa.describeRequestsOnHold)) ==> ch == old(pa.describeRequestsOnHold)[called(send)-1].Res) && (called(send) > len(old(pa.describeRequestsOnHold)) ==> called(send) - len(old(pa.describeRequestsOnHold)) <= len(old(pa.readerAddRequestsOnHold)) && ch == old(pa.readerAddRequestsOnHold)[called(send) - len(old(pa.describeRequestsOnHold)) - 1].Res)
+//@   loop 1 invariant called(onDemandStaticSourceStop) == 0 && 0 <= _i && _i <= len(pa.describeRequestsOnHold) && called(send) == _i && pa.describeRequestsOnHold == old(pa.describeRequestsOnHold) && pa.readerAddRequestsOnHold == old(pa.readerAddRequestsOnHold)
+//@   loop 2 invariant called(onDemandStaticSourceStop) == 0 && 0 <= _i && _i <= len(pa.readerAddRequestsOnHold) && called(send) == len(old(pa.describeRequestsOnHold)) + _i && pa.readerAddRequestsOnHold == old(pa.readerAddRequestsOnHold)
+//@   assert-call onDemandStaticSourceStop: called(send) == len(old(pa.describeRequestsOnHold)) + len(old(pa.readerAddRequestsOnHold)) && isnil(pa.describeRequestsOnHold) && isnil(pa.readerAddRequestsOnHold)
+//@   ensures [every-held-request-answered-once] called(send) == len(old(pa.describeRequestsOnHold)) + len(old(pa.readerAddRequestsOnHold)) && called(onDemandStaticSourceStop) == 1
+//@   ensures [state-initial-so-later-demand-restarts] pa.onDemandStaticSourceState == 0
+
+//@ func (pa *path) doOnDemandPublisherReadyTimer
+//@   property C19
+//@   safety -all
+//@   assert-call send: (called(send) <= len(old(pa.describeRequestsOnHold)) ==> ch == old(pa.describeRequestsOnHold)[called(send)-1].Res) && (called(send) > len(old(pa.describeRequestsOnHold)) ==> called(send) - len(old(pa.describeRequestsOnHold)) <= len(old(pa.readerAddRequestsOnHold)) && ch == old(pa.readerAddRequestsOnHold)[called(send) - len(old(pa.describeRequestsOnHold)) - 1].Res)
+//@   loop 1 invariant called(onDemandPublisherStop) == 0 && 0 <= _i && _i <= len(pa.describeRequestsOnHold) && called(send) == _i && pa.describeRequestsOnHold == old(pa.describeRequestsOnHold) && pa.readerAddRequestsOnHold == old(pa.readerAddRequestsOnHold)
+//@   loop 2 invariant called(onDemandPublisherStop) == 0 && 0 <= _i && _i <= len(pa.readerAddRequestsOnHold) && called(send) == len(old(pa.describeRequestsOnHold)) + _i && pa.readerAddRequestsOnHold == old(pa.readerAddRequestsOnHold)
+//@   assert-call onDemandPublisherStop: called(send) == len(old(pa.describeRequestsOnHold)) + len(old(pa.readerAddRequestsOnHold)) && isnil(pa.describeRequestsOnHold) && isnil(pa.readerAddRequestsOnHold)
+//@   ensures [every-held-request-answered-once] called(send) == len(old(pa.describeRequestsOnHold)) + len(old(pa.readerAddRequestsOnHold)) && called(onDemandPublisherStop) == 1
+//@   ensures [state-initial-so-later-demand-restarts] pa.onDemandPublisherState == 0
+
+// C20 (sub-claims, the path side): the online pair is closed by setOffline exactly when it is open (the stored closer
+// is called once and forgotten) and setOnline closes any open pair before it opens the next; setAvailable opens
+// exactly one available pair on success and none on failure, and the online pair inside it, in that order;
+// setNotAvailable closes the online pair first, then the available pair, each once; the on-demand pair is opened
+// once by onDemandPublisherStart and closed once (and forgotten) by onDemandPublisherStop; a replaced publisher's
+// pairs are closed before the next publisher's are opened.
+
+//@ func (pa *path) setOffline
+//@   property C20
+//@   safety -all
+//@   assert-call onOfflineHook: called(onOfflineHook) == 1 && !isnil(pa.onOfflineHook)
+//@   ensures [closer-called-once-iff-pair-open] called(onOfflineHook) == b2i(!isnil(old(pa.onOfflineHook)))
+//@   ensures [pair-marked-closed] isnil(pa.onOfflineHook)
+
+//@ func (pa *path) setOnline
+//@   property C20
+//@   safety -all
+//@   assert-call setOffline: called(setOffline) == 1 && called(OnOnline) == 0
+//@   assert-call OnOnline: called(OnOnline) == 1 && called(setOffline) == 1 && isnil(pa.onOfflineHook)
+//@   ensures [previous-pair-closed-then-one-opened] called(setOffline) == 1 && called(OnOnline) == 1
+//@   ensures [closer-stored] pa.onOfflineHook == resultof(OnOnline)
+
+//@ func (pa *path) setAvailable
+//@   property C20
+//@   safety -all
+//@   assert-call OnAvailable: called(OnAvailable) == 1 && called(setOnline) == 0
+//@   assert-call setOnline: called(setOnline) == 1 && called(OnAvailable) == 1 && pa.onUnavailableHook == resultof(OnAvailable)
+//@   ensures [one-available-pair-opened-on-success] result == nil ==> called(OnAvailable) == 1
+//@   ensures [no-pair-opened-on-failure] result != nil ==> called(OnAvailable) == 0 && called(setOnline) == 0
+//@   ensures [at-most-one-online-pair-opened-inside] called(setOnline) <= 1
